@@ -18,7 +18,7 @@ from ..immsites import find_all, contains
 
 LEVEL = 'other'
 BAD = {'RawToken', 'Literal'}
-UNCLASSIFIED = {'Unknown', 'ObjAttrs', 'CliArgs'}
+UNCLASSIFIED = {'Unknown', 'ObjAttrs', 'CliArgs', 'Ambiguous'}
 
 
 def stmt_of(node):
@@ -49,9 +49,25 @@ def only_reported(node):
     return False
 
 
+def cwd_guard_through_callers(pv, q, node, depth=0):
+    """cwd_guard, where a helper that merely returns the working directory is judged by the places it is called from."""
+    g = pv.cwd_guard(q, node)
+    if g != 'unguarded' or depth > 3 or q in ('assemble', 'read_lines'):
+        return g
+    sites = pv.call_sites_of(q)
+    if not sites or q in pv.value_refs():
+        return g
+    verdicts = [cwd_guard_through_callers(pv, cq, call, depth + 1) for cq, call in sites]
+    if all(v == 'guarded' for v in verdicts):
+        return 'guarded'
+    return 'unknown' if 'unknown' in verdicts else 'unguarded'
+
+
 def classify_sink(pv, q, name, arg):
     """('ok' | 'bad' | 'unknown', kinds) for the path argument of a filesystem call."""
     ks = set(pv.kinds(arg, q)) - {'NoneK'}
+    if 'Ambiguous' in ks:
+        return 'unknown', ks        # a same-named attribute of unrelated classes: proves nothing about this object
     if ks & BAD:
         return 'bad', ks
     if ks & UNCLASSIFIED or not ks:
@@ -85,7 +101,7 @@ def check_sinks(rep, facts, cg, pv, rule, reach):
             if is_cwd_expr(n):
                 if only_reported(n):
                     continue
-                g = pv.cwd_guard(q, n)
+                g = cwd_guard_through_callers(pv, q, n)
                 if g == 'unknown':
                     defer(rep, '{}: the conditions under which the working directory ({}) is consulted are not understood: no verdict'.format(q, unparse(n)))
                     continue
@@ -112,6 +128,25 @@ def caller_object_params(pv, cg, reach, seeds):
                         seen.add((callee, param))
                         todo.append((callee, param))
     return seen
+
+
+UNKNOWN_CONST = object()
+
+
+def constant_of(pv, node, q, depth=0):
+    """The constant an expression evaluates to, following local names with a single constant definition; UNKNOWN_CONST otherwise."""
+    if isinstance(node, ast.Constant):
+        return node.value
+    if isinstance(node, ast.Name) and depth < 4:
+        if node.id in pv.facts.consts and not any(node.id in pv.params(pv.fn_of(q)) for _ in [0]):
+            defs = pv.reaching(q, node)
+            if all(h[0] == 'free' for h, _ in defs):
+                return pv.facts.consts[node.id]
+        defs = pv.reaching(q, node)
+        vals = [constant_of(pv, v, q, depth + 1) if h[0] == 'expr' else UNKNOWN_CONST for h, v in defs]
+        if vals and all(v is not UNKNOWN_CONST and v == vals[0] and type(v) is type(vals[0]) for v in vals):
+            return vals[0]
+    return UNKNOWN_CONST
 
 
 def find_reader(pv, cg):
@@ -216,13 +251,17 @@ def check_reader(rep, facts, cg, pv, reach):
             for arg in bound.get(path_param, []):
                 ks |= pv.kinds(arg, q)
             ks -= {'NoneK'}
-            if ks & BAD or not ks:
+            if 'Ambiguous' in ks:
+                defer(rep, '{}: the path handed to the recursive read could not be classified ({})'.format(q, sorted(ks)))
+            elif ks & BAD or not ks:
                 problems.append('passes a {} path'.format('/'.join(sorted(ks)) or 'missing'))
             elif ks != {'Resolved'}:
                 defer(rep, '{}: the path handed to the recursive read could not be classified ({})'.format(q, sorted(ks)))
             for p in flag_params:
-                vals = bound.get(p, [])
-                if not (vals and all(isinstance(v, ast.Constant) and v.value is True for v in vals)):
+                vals = [constant_of(pv, v, q) for v in bound.get(p, [])]
+                if any(v is UNKNOWN_CONST for v in vals):
+                    defer(rep, '{}: the value passed for {} to the recursive read is not a constant'.format(q, p))
+                elif not (vals and all(v is True for v in vals)):
                     problems.append('does not pass {}=True (an included path must be read as a file)'.format(p))
             for p in dir_params:
                 dk = set()
@@ -243,7 +282,8 @@ def check_reader(rep, facts, cg, pv, reach):
 
     # R14.2.adjacent: every include search ranges over the -i directories and the directory of the including file
     n_search = 0
-    for q in reach:
+    searched, sites_, unclear_ = set(), [], None
+    for q in sorted(pv.reach(reader)):
         for n in walk_fn(cg.funcs[q]):
             first = None
             if isinstance(n, ast.Call) and dotted(n.func) == 'os.path.join' and len(n.args) > 1 and not isinstance(n.args[0], ast.Starred):
@@ -257,16 +297,40 @@ def check_reader(rep, facts, cg, pv, reach):
                 if not ks & DIRKINDS:
                     continue
                 n_search += 1
-                missing = [k for k in ('Dir', 'AdjDir') if k not in ks]
-                if missing and ks & UNCLASSIFIED:
-                    defer(rep, '{}: the directories searched by {} could not be classified ({})'.format(q, unparse(n)[:60], sorted(ks)))
-                    continue
-                rep.check(not missing, 'R14.2.adjacent', '{}: the search ranges over the -i directories and the directory of the including file'.format(q),
-                          lambda q=q, n=n, ks=ks, missing=missing: Finding(
-                              'R14.2.adjacent', q, n, 'the include search joins the name with directories of kind {} only: {} not searched'.format(
-                                  '/'.join(sorted(ks)), ' and '.join({'Dir': 'the -i directories are', 'AdjDir': 'the directory of the file being read is'}[m] for m in missing)),
-                              line=n.lineno))
+                searched |= ks
+                sites_.append((q, n))
+                if ks & UNCLASSIFIED:
+                    unclear_ = (q, n, ks)
+    # the search may be spread over several joins (the -i directories in a loop, then the adjacent directory): what counts is
+    # the union of the directories the reader joins the name with
+    missing = [k for k in ('Dir', 'AdjDir') if k not in searched]
+    if sites_:
+        if missing and unclear_ is not None:
+            defer(rep, '{}: the directories searched by {} could not be classified ({})'.format(unclear_[0], unparse(unclear_[1])[:60], sorted(unclear_[2])))
+        else:
+            q0, n0 = sites_[0]
+            rep.check(not missing, 'R14.2.adjacent', '{}: the search ranges over the -i directories and the directory of the including file ({} join sites)'.format(reader, len(sites_)),
+                      lambda: Finding('R14.2.adjacent', q0, n0, 'the include search joins the name with directories of kind {} only: {} not searched'.format(
+                          '/'.join(sorted(searched)), ' and '.join({'Dir': 'the -i directories are', 'AdjDir': 'the directory of the file being read is'}[m] for m in missing)),
+                          line=n0.lineno))
     rep.analysed['include search sites'] = n_search
+    # the adjacent directory is the directory of the file *as named*: dirname(realpath(file)) is the directory of a link's target
+    for q in sorted(pv.reach(reader)):
+        for n in walk_fn(cg.funcs[q]):
+            if isinstance(n, ast.Call) and dotted(n.func) == 'os.path.dirname' and n.args:
+                arg = n.args[0]
+                cands = [arg]
+                if isinstance(arg, ast.Name):
+                    cands = [v for h, v in pv.reaching(q, arg) if h[0] == 'expr']
+                for c in cands:
+                    inner = c
+                    while isinstance(inner, ast.Call) and dotted(inner.func) in ('os.path.abspath', 'os.path.normpath', 'str', 'os.fspath') and inner.args:
+                        inner = inner.args[0]
+                    links = (isinstance(inner, ast.Call) and dotted(inner.func) in ('os.path.realpath', 'os.readlink')) or \
+                        (isinstance(inner, ast.Call) and isinstance(inner.func, ast.Attribute) and inner.func.attr == 'resolve' and not inner.args)
+                    if links and set(pv.kinds(inner, q)) & {'Resolved', 'UserGiven'} and 'AdjDir' in pv.kinds(n, q) and not only_reported(n):
+                        rep.fail(Finding('R14.2.link-followed', q, n, 'the adjacent directory is computed as {}: for a file that is a symbolic link this is the directory of the '
+                                         'link target, not the directory the file was named in'.format(unparse(n)[:70]), line=n.lineno), instance='adjacent ' + unparse(n)[:50])
 
     # R14.2.dirs-copied: the list object the API caller passed is never changed in place
     shared = caller_object_params(pv, cg, reach, [('assemble', p) for p in pv.params(cg.funcs['assemble'])
@@ -340,20 +404,35 @@ def parts_of(value):
     return [('opaque', v)]
 
 
-def implies_blank(test, pol):
-    """The outcome `pol` of `test` holds exactly when a piece of text is empty after stripping (`not x.strip()`,
-    `len(x.strip()) == 0`, `x.strip() == ''`, `not x.split()` ...): decided by evaluating the test for an empty and a non-empty
-    stripped text."""
-    from ..symeval import SymEval, Undecided
-    pieces = find_all(test, lambda v: v[0] == 'mcall' and v[2] in ('strip', 'lstrip', 'rstrip', 'split') and not v[3] and not v[4])
-    for m in pieces:
-        empty, full = ('', 'x') if m[2] != 'split' else ([], ['x'])
-        try:
-            a = bool(SymEval(None, {m: empty}).ev(test))
-            b = bool(SymEval(None, {m: full}).ev(test))
-        except (Undecided, AttributeError):
-            continue
-        if a == pol and b != pol:
+NONBLANK_LINES = ['x', ' x ', 'include foo.asm', 'include_bytes a.bin', 'addi x1, x0, 1', '# comment', 'label:', '\tnop']
+BLANK_LINES = ['', ' ', '\t', ' \t  ']
+
+
+def only_blank_lines(facts, path):
+    """Only blank source lines take this path.  Bounded evaluation over the listed samples: for some symbol of the line, (1) a blank
+    sample (BLANK_LINES) satisfies every condition of the path that mentions the line and (2) every sample of a non-blank line
+    (NONBLANK_LINES) is refuted by one of them (`not x.strip()`, `len(x.strip()) == 0`, `x.isspace() or not x`, `not x.split()` ...).
+    A path that no blank line takes is taken - if at all - by non-blank lines."""
+    conds = [(normalise(facts, t), pol) for t, pol, _ in path.conds]
+    leaves = []
+    for t, _ in conds:
+        for leaf in line_leaves(facts, t):
+            if leaf not in leaves:
+                leaves.append(leaf)
+
+    def refuted(leaf, text):
+        ev = SymEval(facts, {leaf: text})
+        for t, pol in conds:
+            if not contains(t, leaf):
+                continue
+            try:
+                if bool(ev.ev(t)) != pol:
+                    return True
+            except Undecided:
+                continue
+        return False
+    for leaf in leaves:
+        if all(refuted(leaf, text) for text in NONBLANK_LINES) and not all(refuted(leaf, text) for text in BLANK_LINES):
             return True
     return False
 
@@ -370,7 +449,7 @@ def judge_contribution(rep, where, cond, recs, parts, node, fallback_line, path=
         rep.check(ok, 'R14.3.splice', 'include path [{}]: the lines of the included file, and nothing else, are added at the position of the include line'.format(cond[-60:]),
                   lambda: Finding('R14.3.splice', where, node, 'the lines of an included file are not spliced in (once, alone) at the position of the include line', line=line))
         return 'include'
-    if not parts and path is not None and not any(implies_blank(t, pol) for t, pol, _ in path.conds):
+    if not parts and path is not None and not only_blank_lines(FACTS[0], path):
         # a non-blank line (an include line among them) that contributes nothing
         other = [e for e in path.events if (e[0] == 'mcall' and e[2] in MUTATORS and e[2] not in ('add', 'discard', 'update', 'setdefault')) or e[0] in ('setitem', 'augstore')]
         if other:
@@ -443,37 +522,75 @@ def located_path(value, path=None):
         return ('join', v[2][0], v[2][1])
     if v[0] == 'bin' and v[1] == '/':
         return ('join', v[2], v[3])
+    if v[0] == 'sub' and strip_res(v[1])[0] == 'dictcomp':
+        return located_path(strip_res(v[1])[2], path)      # a table of candidates built on the spot: {d: join(d, name) for d in dirs}[d]
     if v[0] == 'sub':
         return ('memo', v[1], v[2])
     if v[0] == 'mcall' and v[2] == 'get' and v[3]:
         return ('memo', v[1], v[3][0])
-    if v[0] == 'call' and v[1] in ('str', 'os.path.abspath', 'os.path.normpath', 'os.fspath') and len(v[2]) == 1:
+    if v[0] == 'call' and v[1] in ('str', 'os.path.abspath', 'os.path.normpath', 'os.fspath', 'os.path.realpath') and len(v[2]) >= 1:
         return located_path(v[2][0], path)
+    if v[0] == 'mcall' and v[2] in ('resolve', 'absolute') and not v[3]:
+        return located_path(v[1], path)
+    if v[0] == 'ifexp':
+        # `p if os.path.exists(p) else None`
+        for branch in (v[2], v[3]):
+            if branch != ('const', None):
+                return located_path(branch, path)
+        return None
+    if v[0] in ('mcall', 'unpack', 'sub', 'item', 'var') and not find_all(v, lambda t: t[0] in ('callv', 'havoc', 'lv') or (t[0] == 'call' and t[1].startswith('os.'))):
+        return ('join', None, v)        # the operand itself is used as the path (e.g. an absolute name)
     return None
 
 
-def check_located(rep, facts, where, path, located, shared_with, node):
-    """R14.1.operand / R14.1.memo for the path value of one include / include_bytes line (see the callers)."""
-    loc = located_path(normalise(facts, located), path)
+def follows_links(v):
+    """The outermost conversions of a path value that follow symbolic links: os.path.realpath(p), Path(p).resolve(), os.readlink(p)."""
+    v = strip_res(v)
+    while True:
+        if v[0] == 'call' and v[1] in ('os.path.realpath', 'os.readlink') and v[2]:
+            return v
+        if v[0] == 'mcall' and v[2] == 'resolve':
+            return v
+        if v[0] == 'call' and v[1] in ('str', 'os.path.abspath', 'os.path.normpath', 'os.fspath') and len(v[2]) == 1:
+            v = strip_res(v[2][0])
+            continue
+        return None
+
+
+def check_located(rep, facts, where, path, located, shared_with, node, kind='include'):
+    """R14.1.operand / R14.1.memo / R14.2.link-followed for the path value of one include / include_bytes line (see the callers)."""
     line = getattr(node, 'lineno', None)
+    link = follows_links(normalise(facts, located)) if kind == 'include' else None
+    if link is not None:
+        # positively wrong: the nested read derives its adjacent directory from this path
+        rep.fail(Finding('R14.2.link-followed', where, node, 'the nested read is handed {}: for an included file that is (or lies behind) a symbolic link the '
+                         'directory of the link *target* becomes the adjacent directory, so its own includes are searched next to the target instead of next to the '
+                         'file as it was named (os.path.abspath / normpath keep the name, realpath / resolve() do not)'.format(show(link)[:70]), line=line),
+                 instance='link ' + show(link)[:50])
+    loc = located_path(normalise(facts, located), path)
     if loc is None:
         return 'unknown'
     if loc[0] == 'memo':
         table, key = normalise(facts, loc[1]), normalise(facts, loc[2])
-        shared = any(contains(x, table) for x in shared_with) or (table[0] == 'name' and table[1] in facts.assign_nodes)
+        # shared: the table itself is handed to a nested read, or lives at module level
+        shared = any(strip_res(normalise(facts, x)) == table for x in shared_with) or (table[0] == 'name' and table[1] in facts.assign_nodes)
         # what the key depends on besides the text of the line (the loop item): directories, parameters ...
         others = [x for x in find_all(key, lambda t: t[0] in ('havoc', 'lv', 'name', 'attr', 'call')) if not (
             x[0] == 'call' and not x[1].startswith(('os.getcwd', 'os.path.dirname', 'copy.'))) and not (x[0] == 'name' and (x[1] in facts.assign_nodes or x[1] in ('re', 'os')))
             and not (x[0] == 'attr' and x[1][0] == 'name' and x[1][1] in ('re', 'os'))]
         if others:
             rep.ok('R14.1.memo', '{}: located paths are remembered under a key that involves the search directories ({})'.format(where, show(key)[:60]))
-            return 'ok'
+            return 'ok-memo'
         if shared and line_leaves(facts, key):
             rep.fail(Finding('R14.1.memo', where, node, 'the located path is taken from the table {} under the key {}: the key does not involve the directories searched for '
                              'this file, and the table is shared with the files it includes (and those that include it), so the same name written in two directories '
                              'resolves to whichever file was found first'.format(show(table)[:40], show(key)[:60]), line=line), instance='memo ' + show(key)[:40])
             return 'memo'
-        return 'unknown'
+        if not shared and table[0] in ('dict',):
+            # a table created by this activation (one file, one search list): what it is keyed by is the name that was searched
+            loc = ('join', None, key)
+        else:
+            return 'unknown'
     name = normalise(facts, loc[2])
     leaves = line_leaves(facts, name)
     if len(leaves) != 1:
@@ -563,22 +680,23 @@ def include_operands(rep, facts, where, path, recs, node):
         args = r[2] if r[0] == 'call' else r[3]
         kwargs = r[3] if r[0] == 'call' else r[4]
         if args:
-            found.append((args[0], list(args[1:]) + [v for _, v in kwargs]))
+            found.append((args[0], list(args[1:]) + [v for _, v in kwargs], 'include'))
     for v in values:
         for g in find_all(v, lambda t: t[0] == 'call' and t[1] == 'os.path.getsize' and len(t[2]) == 1):
             if not any(g[2][0] == f[0] for f in found):
-                found.append((g[2][0], [x for r in recs for x in (r[2] if r[0] == 'call' else r[3])] + ALL_REC_ARGS[0]))
+                found.append((g[2][0], [x for r in recs for x in (r[2] if r[0] == 'call' else r[3])] + ALL_REC_ARGS[0], 'include_bytes'))
     out = []
-    for located, shared_with in found:
-        verdict = check_located(rep, facts, where, path, located, shared_with, node)
+    for located, shared_with, kind in found:
+        verdict = check_located(rep, facts, where, path, located, shared_with, node, kind)
         if verdict == 'unknown':
             # never a silent pass: every located path must be followed back to the text of the line
             defer(rep, '{}: the file name behind `{}` on the path [{}] could not be followed back to the text of the line: no verdict'.format(
                 where, show(located)[:60], path.cond_text()[-60:]))
-        out.append(verdict)
+        out.append((kind, verdict))
     return out
 
 
+FACTS = [None]
 ALL_REC_ARGS = [[]]       # arguments of every recursive read seen in the reader (a table handed down is shared)
 
 
@@ -625,12 +743,16 @@ def check_splice(rep, facts, cg, fn, reader='read_lines', is_method=False):
     n_inc = 0
     operand_verdicts = []
     ALL_REC_ARGS[0] = []
+    FACTS[0] = facts
     if result is not None and loops:
         # loop form: the list is grown inside the (first) top-level loop
         loop, paths = loop_paths_h(facts, fn, opaque={fn.name}, self_class=reader.split('.')[0] if is_method else None, parent=parent_fn)
         if isinstance(loop, ast.While):
             check_index_iteration(loop, paths)
-        is_result = lambda v: v in (('lv', result), ('name', result))
+        initial = {getattr(p, 'pre_env', {}).get(result) for p in paths} - {None}
+        fresh = initial.pop() if len(initial) == 1 and next(iter(initial)) in (('list', ()),) else None
+        # the list as the loop sees it, or (for a method bound before the loop) the fresh list it was created as
+        is_result = lambda v: v in (('lv', result), ('name', result)) or (fresh is not None and v == fresh)
         for p in paths:
             for r in rec_calls_([part for ev in p.events for part in ev[1:]]):
                 ALL_REC_ARGS[0] += list(r[2] if r[0] == 'call' else r[3]) + [v for _, v in (r[3] if r[0] == 'call' else r[4])]
@@ -642,10 +764,15 @@ def check_splice(rep, facts, cg, fn, reader='read_lines', is_method=False):
             node = None
             unknown_mut = None
             for e in p.events:
+                if e[0] == 'expr' and e[1][0] == 'callv' and e[1][1][0] == 'attr' and is_result(e[1][1][1]) and e[1][1][2] in MUTATORS:
+                    # a bound method of the list called through a local alias (keep = lines.append; keep(line))
+                    e = ('mcall', e[1][1][1], e[1][1][2], e[1][2], e[1][3] if len(e[1]) > 3 else (), e[2])
                 if e[0] == 'mcall' and is_result(e[1]) and e[2] in MUTATORS:
                     node = node or e[5]
                     if e[2] == 'append' and len(e[3]) == 1:
                         parts.append(('one', e[3][0]))
+                    elif e[2] == 'insert' and len(e[3]) == 2 and strip_res(e[3][0]) == ('call', 'len', (e[1],), ()):
+                        parts.append(('one', e[3][1]))          # insert at the end is append
                     elif e[2] == 'extend' and len(e[3]) == 1:
                         parts += parts_of(e[3][0])
                     else:
@@ -661,8 +788,9 @@ def check_splice(rep, facts, cg, fn, reader='read_lines', is_method=False):
             operand_verdicts += include_operands(rep, facts, reader, p, recs, node or p.end_node or loop)
             if judge_contribution(rep, reader, p.cond_text(), recs, parts, node or p.end_node or loop, fn.lineno, path=p) == 'include':
                 n_inc += 1
+        at_end = lambda n: n.func.attr == 'insert' and len(n.args) == 2 and unparse(n.args[0]) == 'len({})'.format(result)
         bad = [n for n in ast.walk(fn) if isinstance(n, ast.Call) and isinstance(n.func, ast.Attribute) and n.func.attr in ('insert', 'sort', 'reverse', 'pop', 'remove', 'clear')
-               and isinstance(n.func.value, ast.Name) and n.func.value.id == result]
+               and isinstance(n.func.value, ast.Name) and n.func.value.id == result and not at_end(n)]
         bad += [n for n in ast.walk(loop) if isinstance(n, ast.Name) and isinstance(n.ctx, ast.Store) and n.id == result and not isinstance(getattr(n, '_parent', None), ast.AugAssign)]
         rep.check(not bad, 'R14.3.order', 'the line list is built by append/extend only and never rebound inside the loop',
                   lambda: Finding('R14.3.order', 'read_lines', stmt_of(bad[0]), 'the line list is reordered / rebuilt inside the reader loop', line=bad[0].lineno), nontrivial=False)
@@ -693,9 +821,12 @@ def check_splice(rep, facts, cg, fn, reader='read_lines', is_method=False):
             if judge_contribution(rep, target, p.cond_text(), recs, parts_of(rv[-1][1]), rv[-1][2], fn.lineno, path=p) == 'include':
                 n_inc += 1
     rep.analysed['include paths through the reader loop'] = n_inc
-    rep.analysed['include operands evaluated'] = sum(1 for v in operand_verdicts if v in ('ok', 'operand', 'memo'))
-    if not rep.analysed['include operands evaluated']:
-        defer(rep, '{}: the file name that an include line hands to the search could not be followed back to the text of the line: no verdict'.format(reader))
+    rep.analysed['include operands evaluated'] = sum(1 for _, v in operand_verdicts if v in ('ok', 'operand', 'memo'))
+    # never vacuous: for the include directive (and for include_bytes when the reader measures a file) at least one path must have had
+    # its operand evaluated; a path that only consults a table says nothing about how the name was cut out of the line
+    for kind in sorted({k for k, _ in operand_verdicts} | {'include'}):
+        if not any(v in ('ok', 'operand', 'memo') for k, v in operand_verdicts if k == kind):
+            defer(rep, '{}: the file name that an {} line hands to the search could not be followed back to the text of the line: no verdict'.format(reader, kind))
 
 
 def strip_res(v):
@@ -798,6 +929,9 @@ def check_every_dir_kept(rep, facts, pv, source, q):
                                  line=getattr(node, 'lineno', p.lineno)), instance='dropped ' + path.cond_text()[-60:])
             rep.ok('R14.4.all-dirs', '{}: the loop over `{}` was followed'.format(q, unparse(p.iter)[:40]), nontrivial=False)
             return
+        if isinstance(p, ast.While) and any(child is s for s in p.body):
+            defer(rep, '{}: the -i directories are added to the search list inside a while loop: whether every one of them is kept is not understood'.format(q))
+            return
         child, p = p, getattr(p, '_parent', None)
 
 
@@ -837,9 +971,11 @@ def run(repo, tier):
     if 'assemble' not in cg.funcs:
         raise AnalysisError('anchor vanished: assemble')
     reach = sorted(pv.reach('assemble'))
-    check_sinks(rep, facts, cg, pv, 'R14.1.provenance', reach)
-    check_reader(rep, facts, cg, pv, reach)
-    check_cli(rep, facts, cg, pv)
+    for group in (lambda: check_sinks(rep, facts, cg, pv, 'R14.1.provenance', reach), lambda: check_reader(rep, facts, cg, pv, reach), lambda: check_cli(rep, facts, cg, pv)):
+        try:
+            group()
+        except AnalysisError as e:
+            defer(rep, str(e))          # a group that does not understand the code must not mask a finding of another group
     raise_deferred(rep)
     # what the rule needs to have seen (not a count of syntactic sites: a refactor may merge probes): the source file and the
     # include_bytes content are read, the caller's own path is probed / opened, the search result is probed and measured / read
